@@ -635,6 +635,7 @@ fn main() {
         cases.into_iter().partition(|c| c.ops.iter().any(|(_, o)| matches!(o, Op::SetAlign(true))));
     s.count_n("alignment:bottom(histories that switch to Bottom)", bottom_cases.len() as u64);
     s.count_n("alignment:top-only", top_cases.len() as u64);
+    run_sys_cases(&mut s, &verif_harness::sysrun::finding_witnesses(&["D22", "D17", "D28"]), &nontrivial); // open findings D22, D17-C04, D28-C04 exhibited at every seed
     run_sys_cases(&mut s, &top_cases, &nontrivial);
     // the screen oracle classifies the recorded open finding D22 (bottom alignment, padded frame,
     // visibly finished member reaped at the head) as 'bottom-alignment-kept-rows-misplaced' itself
